@@ -356,7 +356,7 @@ where
 
 /// Verification hook (only with `--cfg similar_verif`): one call of
 /// `shift_diff_ops_up` / `shift_diff_ops_down`, returning the new pointer.
-#[cfg(similar_verif)]
+#[cfg(all(similar_verif, not(similar_verif_no_internals)))]
 pub fn verif_shift_diff_ops<Old, New>(
     up: bool,
     ops: &mut Vec<DiffOp>,
